@@ -50,6 +50,11 @@ def run(tier, seed, replay):
             sp = common.mk_spec(0, [cfg])
             sp["cfg"] = cfg
             bases.append(("normal-only-import:" + nm, sp))
+    for g in ("clock", "getDB", "x", "GetX", "g_1"):
+        cfg = {"services": {"s": {"constructor": "NewA", "getter": g, "must_getter": True, "type": "*T"}, "t": {"value": "Value", "getter": "Other" + g, "type": "T"}}}
+        sp = common.mk_spec(0, [cfg])
+        sp["cfg"] = cfg
+        bases.append(("getter-case:" + g, sp))
     specs = []
     for kind, sp in bases:
         for stub in (False, True):
